@@ -44,6 +44,22 @@ function children(cb, parent, isCreation, env) {
       const n = parent.children[idx++]; if (!n) return
       const old = n.children
       const next = []
+      // splice update (spliceArrayDataOnPath with a keyed list): the tree is Object.create([true, ...]) as tmpl/index.ts builds it; the
+      // inserted items are created, the old items are moved: same item, unmarked item tree, index changed (index tree = true)
+      const proto = tree && typeof tree === 'object' ? Object.getPrototypeOf(tree) : null
+      if (Array.isArray(proto) && SPLICE.count > 0 && items.length === old.length + SPLICE.count) {
+        for (let i = 0; i < items.length; i++) {
+          const [item, index] = items[i]
+          if (i < SPLICE.count) { next.push(mk(item, index)); continue }
+          const c = old[i - SPLICE.count]
+          const indexChanged = c.index !== index
+          c.index = index
+          children((isC, T_, E_, B_, F_, S_, J_) => cb2(false, item, index, tree[index], indexChanged ? true : undefined, lpath ? [...lpath, index] : null, T_, E_, B_, F_, S_, J_), c, false, env)
+          next.push(c)
+        }
+        n.children = next
+        return
+      }
       for (let i = 0; i < items.length; i++) {
         const [item, index] = items[i]
         if (i < old.length) {
@@ -66,12 +82,13 @@ function create(data) { const root = { k: 'ROOT', attrs: {}, children: [] }; con
 function update(root, data, tree) { const res = G('')(mkSetters(), false, data, tree); children(res.C, root, false, {}) }
 function render(n) { return n.k + (n.tag ? ':' + n.tag : '') + (n.text !== undefined ? '=' + n.text : '') + (n.name !== undefined ? '~' + n.name : '') + (n.key !== undefined ? '#' + String(n.key) : '') + JSON.stringify(n.attrs) + '[' + n.children.map(render).join(',') + ']' }
 
+const SPLICE = { count: 0 }
 // ---- scenario search: D0 from a structured pool, one leaf change, exact / coarsened tree
 let seed = input.seed || 1
 const rnd = () => { seed = (seed * 1103515245 + 12345) & 0x7fffffff; return seed / 0x7fffffff }
 const pick = (a) => a[Math.floor(rnd() * a.length)]
 const obj = () => ({ k: { m: 1, j: 'x', x: 1, y: 2 }, j: 'x', x: 3, y: 4, f: (v) => v, sub: [{ k: 1, j: 'x', x: 1, y: 2 }, { k: 2, j: 'y', x: 5, y: 6 }], 0: 7, 1: 8 })
-const pool = [() => 0, () => 1, () => 'x', () => 'y', () => true, () => false, obj, () => [{ k: 1, x: 1, y: 2, j: 'x', sub: [1, 2] }, { k: 2, x: 3, y: 4, j: 'y', sub: [3] }], () => null, () => undefined, () => (v) => v, () => (v) => (v ? 'x' : 'y')]
+const pool = [() => 0, () => 1, () => 'x', () => 'y', () => true, () => false, obj, () => [{ k: 1, x: 1, y: 2, j: 'x', sub: [1, 2] }, { k: 2, x: 3, y: 4, j: 'y', sub: [3] }], () => null, () => undefined, () => (v) => v, () => (v) => (v ? 'x' : 'y'), () => (v) => ({ k: v, j: v, 0: v })]
 function leafPaths(v, pre, out, depth) { if (depth > 3) return; out.push(pre); if (v && typeof v === 'object') for (const k of Object.keys(v)) leafPaths(v[k], pre.concat([k]), out, depth + 1) }
 function clone(v) { if (Array.isArray(v)) return v.map(clone); if (v && typeof v === 'object') { const o = {}; for (const k of Object.keys(v)) o[k] = clone(v[k]); return o } return v }
 function mutate(v) { if (typeof v === 'number') return v + 1; if (typeof v === 'string') return v === 'x' ? 'y' : 'x'; if (typeof v === 'boolean') return !v; if (v === null || v === undefined) return 1; if (typeof v === 'function') return (a) => 'z'; if (Array.isArray(v)) return v.concat([{ k: 9, x: 9, y: 9, j: 'x', sub: [] }]); return Object.assign(clone(v), { x: (v.x || 0) + 1, y: 0 }) }
@@ -99,5 +116,18 @@ for (let t = 0; t < (input.tries || 2000) && !found; t++) {
   let a, b
   try { const r0 = create(D0); update(r0, D1, U); a = render(r0); b = render(create(D1)) } catch (e) { continue }
   if (a !== b) found = { D0: show(D0), changed_path: p, tree: JSON.stringify(U), after_update: a, fresh_create: b }
+}
+// ---- second phase: splice scenarios (an item is inserted in front of a keyed list; the other items keep their values and trees but move)
+for (let t = 0; t < 40 && !found; t++) {
+  const D0 = {}
+  for (const n of names) D0[n] = n === 'list' ? pool[7]() : pick(pool)()
+  const D1 = clone(D0)
+  for (const n of names) if (typeof D0[n] === 'function') D1[n] = D0[n]
+  D1.list = [{ k: 7, x: 7, y: 7, j: 'y', sub: [7] }].concat(D0.list.map(clone))
+  const U = { list: Object.create([true]) }
+  tried++
+  let a, b
+  try { const r0 = create(D0); SPLICE.count = 1; update(r0, D1, U); SPLICE.count = 0; a = render(r0); b = render(create(D1)) } catch (e) { SPLICE.count = 0; continue }
+  if (a !== b) found = { D0: show(D0), scenario: 'splice: one item inserted at index 0 of `list` (tree = Object.create([true]))', after_update: a, fresh_create: b }
 }
 console.log(JSON.stringify({ found, tried }))
